@@ -11,4 +11,6 @@ Definition COLL := Eval vm_compute in collisions consts snapshot.
 Definition BLOCKCOLL := Eval vm_compute in same_block_collisions consts.
 Definition COUNT := Eval vm_compute in List.length consts.
 Definition SAMPLE := Eval vm_compute in map (fun e => (e, assigned snapshot (fst e))) (firstn 3 consts).
-Print BAD. Print COLL. Print BLOCKCOLL. Print COUNT. Print SAMPLE.
+Definition TAGVAR := Eval vm_compute in tag_variants.
+Definition ALL := Eval vm_compute in map (fun e => (e, registry_of snapshot (fst e))) consts.
+Print BAD. Print COLL. Print BLOCKCOLL. Print COUNT. Print SAMPLE. Print TAGVAR. Print ALL.
